@@ -1020,10 +1020,15 @@ func (db *DB) initDatabaseFile() error {
 
 // clean deletes and recreates the database data directory.
 func (db *DB) clean() error {
-	if err := db.os.RemoveAll("CLEAN", db.path); err != nil && !os.IsNotExist(err) {
-		return err
+	// Only remove the data files. The transaction files must stay: the database
+	// may have been deleted & recreated (the interrupted transaction is the first
+	// one of the new database, not of the transaction log).
+	for _, path := range []string{db.DatabasePath(), db.JournalPath(), db.WALPath(), db.SHMPath()} {
+		if err := db.os.Remove("CLEAN", path); err != nil && !os.IsNotExist(err) {
+			return err
+		}
 	}
-	return db.os.Mkdir("CLEAN", db.path, 0o777)
+	return nil
 }
 
 // OpenLTXFile returns a file handle to an LTX file that contains the given TXID.
